@@ -661,3 +661,75 @@ Proof.
   - cbn. right. exact G.
   - cbn. right. exact G.
 Qed.
+
+Lemma framed_cell : forall F h w, good F h -> In (idx w) F -> exists c, findw h w = Some c.
+Proof.
+  intros F h w G Hin. pose proof (good_framed_live F h (idx w) G Hin) as Hl. rewrite addr_idx in Hl. apply live_some. exact Hl.
+Qed.
+
+Lemma step_keyh : forall f, S_all f -> forall w hs F h, good F h -> In (idx w) F ->
+  dok F (run_key_handlers fixed (S f) w hs h).
+Proof.
+  intros f (_ & S2 & S3 & _) w hs F h G Hin. rewrite run_key_handlers_F. destruct hs as [|hd hs']; [apply dok_ret; exact G|].
+  destruct (framed_cell F h w G Hin) as [cw Hw]. unfold bind at 1. rewrite (getw_run h w cw Hw).
+  destruct (h_key hd && existsb (fun x => h_id x =? h_id hd) (w_hs cw)); [|apply S3; assumption].
+  eapply dok_bind; [apply S2; exact G| |].
+  - intros _. destruct (h_ret hd); [apply text_ret|auto].
+  - intros _ h1 _ G1. destruct (h_ret hd); [apply dok_ret; exact G1|apply S3; assumption].
+Qed.
+
+Lemma step_mouseh : forall f, S_all f -> forall w hs t u F h, good F h -> In (idx w) F ->
+  dok F (run_mouse_handlers fixed (S f) w hs t u h).
+Proof.
+  intros f (_ & S2 & _ & S4 & _) w hs t u F h G Hin. rewrite run_mouse_handlers_F. destruct hs as [|hd hs']; [apply dok_ret; exact G|].
+  destruct (framed_cell F h w G Hin) as [cw Hw]. unfold bind at 1. rewrite (getw_run h w cw Hw).
+  destruct (h_key hd || negb (existsb (fun x => h_id x =? h_id hd) (w_hs cw))); [apply S4; assumption|].
+  assert (Hrest : forall h0, good F h0 ->
+            dok F ((if handler_fires_mouse hd t
+                    then run_ops fixed f (h_actions hd) ;;; (if h_ret hd then ret true else run_mouse_handlers fixed f w hs' t u)
+                    else run_mouse_handlers fixed f w hs' t u) h0)).
+  { intros h0 G0. destruct (handler_fires_mouse hd t); [|apply S4; assumption].
+    eapply dok_bind; [apply S2; exact G0| |].
+    - intros _. destruct (h_ret hd); [apply text_ret|auto].
+    - intros _ h1 _ G1. destruct (h_ret hd); [apply dok_ret; exact G1|apply S4; assumption]. }
+  unfold bind at 1. destruct u; [unfold note_uninit; apply Hrest; apply good_uninit; exact G|cbn [ret]; apply Hrest; exact G].
+Qed.
+
+Lemma child_parent_framed : forall F h w k ck, In (idx w) F -> findw h k = Some ck -> w_parent ck = Some w ->
+  parent_framed F h k.
+Proof. intros F h w k ck Hin Hk Hp. exists ck. split; [exact Hk|]. intros p E. rewrite Hp in E. inversion E; subst p. exact Hin. Qed.
+
+Lemma step_kkids : forall f, S_all f -> forall w st kids F h, good F h -> In (idx w) F ->
+  dok F (key_kids fixed (S f) w st kids h).
+Proof.
+  intros f (_ & _ & _ & _ & S5 & S6 & _) w st kids F h G Hin. rewrite key_kids_F. destruct kids as [|k kids']; [apply dok_ret; exact G|].
+  destruct (framed_cell F h w G Hin) as [cw Hw].
+  assert (HI : hinv [] h) by (destruct G as (g & _ & HI & _); exact HI).
+  unfold bind at 1. pose proof (is_child_spec f h w cw k HI Hw) as Hic.
+  destruct (is_child f w k h) as [still h1| |]; [|contradiction|exact I]. destruct Hic as [-> Hst].
+  destruct still; cbn [negb]; [|apply S6; assumption].
+  destruct (Hst eq_refl) as (ck & Hk & Hpk).
+  unfold bind at 1. rewrite (getw_run h w cw Hw).
+  destruct (ptr_eqb (w_focus cw) (Some k) || ptr_eqb (Some k) st); [apply S6; assumption|].
+  eapply dok_bind; [apply S5; [exact G|eapply child_parent_framed; eauto]| |].
+  - intros r. destruct r; [apply text_ret|auto].
+  - intros r h1 _ G1. destruct r; [apply dok_ret; exact G1|apply S6; assumption].
+Qed.
+
+Lemma step_mkids : forall f, S_all f -> forall w kids t i u F h, good F h -> In (idx w) F ->
+  dok F (mouse_kids fixed (S f) w kids t i u h).
+Proof.
+  intros f (_ & _ & _ & _ & _ & _ & S7 & S8 & _) w kids t i u F h G Hin. rewrite mouse_kids_F.
+  destruct kids as [|k kids']; [apply dok_ret; exact G|].
+  destruct (framed_cell F h w G Hin) as [cw Hw].
+  assert (HI : hinv [] h) by (destruct G as (g & _ & HI & _); exact HI).
+  unfold bind at 1. pose proof (is_child_spec f h w cw k HI Hw) as Hic.
+  destruct (is_child f w k h) as [still h1| |]; [|contradiction|exact I]. destruct Hic as [-> Hst].
+  destruct still; cbn [negb]; [|apply S8; assumption].
+  destruct (Hst eq_refl) as (ck & Hk & Hpk).
+  unfold bind at 1. rewrite (getw_run h k ck Hk).
+  destruct (negb (w_steal ck) && negb i); [apply S8; assumption|].
+  eapply dok_bind; [apply S7; [exact G|eapply child_parent_framed; eauto]| |].
+  - intros r. destruct r; [apply text_ret|auto].
+  - intros r h1 _ G1. destruct r; [apply dok_ret; exact G1|apply S8; assumption].
+Qed.
